@@ -743,7 +743,55 @@ func (sc *Scope) resolveType(text string) types.Type {
 	if text == "byte" {
 		return types.Typ[types.Uint8]
 	}
-	// generic instance: pkg.Name[args] is not supported here
+	if text == "any" || text == "interface{}" {
+		return types.Universe.Lookup("any").Type()
+	}
+	if strings.HasSuffix(text, "]") {
+		// generic instance pkg.Name[T1,T2]: bracket matching the final one
+		d := 0
+		open := -1
+		for i := len(text) - 1; i >= 0; i-- {
+			if text[i] == ']' {
+				d++
+			} else if text[i] == '[' {
+				d--
+				if d == 0 {
+					open = i
+					break
+				}
+			}
+		}
+		if open > 0 {
+			gen, ok := sc.resolveType(text[:open]).(*types.Named)
+			if !ok || gen.TypeParams().Len() == 0 {
+				sc.fail("%q: not a generic type", text[:open])
+			}
+			var targs []types.Type
+			d = 0
+			start := open + 1
+			for i := open + 1; i < len(text); i++ {
+				switch text[i] {
+				case '[', '(', '{':
+					d++
+				case ']', ')', '}':
+					if d == 0 {
+						targs = append(targs, sc.resolveType(text[start:i]))
+					}
+					d--
+				case ',':
+					if d == 0 {
+						targs = append(targs, sc.resolveType(text[start:i]))
+						start = i + 1
+					}
+				}
+			}
+			inst, err := types.Instantiate(nil, gen, targs, false)
+			if err != nil {
+				sc.fail("instantiate %q: %v", text, err)
+			}
+			return inst
+		}
+	}
 	i := strings.LastIndex(text, ".")
 	var pkg *types.Package
 	name := text
@@ -867,6 +915,15 @@ func (sc *Scope) evalCall(x *ECall) Val {
 			}
 		}
 		return Val{T: fmt.Sprintf("(if_tag %s)", v.T), S: "Int"}
+	case "funcval":
+		// funcval(pkg.F): the function constant of a static function
+		need(1)
+		id := exprString(x.Args[0])
+		f := c.P.Funcs[id]
+		if f == nil {
+			sc.fail("funcval(%s): no such function", id)
+		}
+		return c.fnConst(f)
 	case "implements":
 		need(2)
 		v := arg(0)
